@@ -1121,6 +1121,12 @@ def m_into_iter(ex, st, fr, path, args, m):
         cell = Cell(a)
         n = len(a.elems) if isinstance(a, VecObj) else len(a.fields)
         return IterV("slice_val", ref=Ref(cell, (), (0, n)), pos=0, end=n)
+    if isinstance(a, Agg) and a.name == "HashMap":
+        # by value: yields (K, V) tuples in the model's insertion order
+        cell = Cell(VecObj(list(a.fields[0].elems)))
+        return IterV("slice_val", ref=Ref(cell, (), (0, len(a.fields[0].elems))), pos=0, end=len(a.fields[0].elems))
+    if isinstance(a, Ref) and isinstance(deref_val(a), Agg) and deref_val(a).name == "HashMap":
+        return IterV("hashmap", ref=a, pos=0, what="iter")
     if isinstance(a, Ref):
         el, lo, hi = seq_of(a)
         return IterV("slice", ref=slice_ref(a), pos=0, end=hi - lo)
@@ -1237,6 +1243,19 @@ def iter_next(ex, st, it):
             keep = ex.call_closure(st, it.tymap, it.closure, [Ref(Cell(o.fields[0]))])
             if ex.decide(st, keep):
                 return o
+    if k == "hashmap":
+        ents = hashmap_entries(it.ref)
+        if it.pos >= len(ents):
+            return NONE()
+        base = it.ref.path + (("f", 0), ("i", it.pos))
+        it.pos += 1
+        kref = Ref(it.ref.cell, base + (("f", 0),))
+        vref = Ref(it.ref.cell, base + (("f", 1),), None, False, it.what in ("values_mut", "iter_mut"))
+        if it.what in ("values", "values_mut"):
+            return some(vref)
+        if it.what == "keys":
+            return some(kref)
+        return some(Agg("tuple", [kref, vref]))
     if k == "chunks":
         if it.pos >= it.end:
             return NONE()
@@ -1661,6 +1680,102 @@ def m_btree_cursor(ex, st, fr, path, args, m):
         base = mapref.path + (("f", 0), ("i", k))
         return some(Agg("tuple", [Ref(mapref.cell, base + (("f", 0),)), Ref(mapref.cell, base + (("f", 1),))]))
     return NONE()
+
+
+# ------------------------------------------------------------------------------------------------
+# HashMap<String, V> as an association list in insertion order (keys: byte strings whose comparison forks on symbolic bytes).
+# The *iteration order* of a real HashMap is unspecified: obligations that iterate a map state the order they explored.
+#   value = Agg("struct", [VecObj([Agg tuple (key VecObj, val)])], name="HashMap")
+# ------------------------------------------------------------------------------------------------
+def hashmap_new(pairs=()):
+    return Agg("struct", [VecObj([Agg("tuple", [k, v]) for k, v in pairs])], name="HashMap")
+
+
+def hashmap_entries(m):
+    m = deref_val(m)
+    while isinstance(m, Ref):
+        m = deref_val(m)
+    if not (isinstance(m, Agg) and m.name == "HashMap"):
+        raise Unsupported(f"HashMap expected, got {m!r}")
+    return m.fields[0].elems
+
+
+def _hashmap_ref(r):
+    """reference to the HashMap aggregate itself (peels references to references)"""
+    v = deref_val(r)
+    while isinstance(v, Ref):
+        r = v
+        v = deref_val(r)
+    return r
+
+
+def _hashmap_find(ex, st, ents, key):
+    for k, e in enumerate(ents):
+        if bytes_cmp(ex, st, e.fields[0], key) == 0:
+            return k
+    return None
+
+
+@model(r"^(?:std::collections::)?HashMap::<(.*)>::(new|with_capacity|insert|len|is_empty|get|get_mut|contains_key|entry|values_mut|values|keys|iter|iter_mut|remove|clear)(::<.*>)?$")
+def m_hashmap(ex, st, fr, path, args, m):
+    op = m.group(2)
+    if op in ("new", "with_capacity"):
+        return hashmap_new()
+    ents = hashmap_entries(args[0])
+    r = _hashmap_ref(args[0])
+    if op == "len":
+        return I("usize", len(ents))
+    if op == "is_empty":
+        return I("bool", len(ents) == 0)
+    if op == "clear":
+        del ents[:]
+        return UNIT
+    if op == "insert":
+        k = _hashmap_find(ex, st, ents, args[1])
+        if k is not None:
+            old = ents[k].fields[1]
+            ents[k].fields[1] = args[2]
+            return some(old)
+        ents.append(Agg("tuple", [args[1], args[2]]))
+        return NONE()
+    if op == "remove":
+        k = _hashmap_find(ex, st, ents, args[1])
+        if k is None:
+            return NONE()
+        return some(ents.pop(k).fields[1])
+    if op in ("get", "get_mut", "contains_key"):
+        k = _hashmap_find(ex, st, ents, args[1])
+        if op == "contains_key":
+            return I("bool", k is not None)
+        if k is None:
+            return NONE()
+        return some(Ref(r.cell, r.path + (("f", 0), ("i", k), ("f", 1)), None, False, op == "get_mut"))
+    if op == "entry":
+        return Agg("struct", [r, args[1]], name="HashMapEntry")
+    if op in ("values_mut", "values", "keys", "iter", "iter_mut"):
+        return IterV("hashmap", ref=r, pos=0, what=op)
+    return NotImplemented
+
+
+@model(r"^(?:std::collections::)?hash_map::Entry::<(.*)>::(or_insert_with|or_insert|or_default)(::<.*>)?$")
+def m_hashmap_entry(ex, st, fr, path, args, m):
+    op = m.group(2)
+    ent = args[0]
+    r, key = ent.fields
+    ents = hashmap_entries(r)
+    k = _hashmap_find(ex, st, ents, key)
+    if k is None:
+        if op == "or_insert":
+            val = args[1]
+        elif op == "or_insert_with":
+            val = ex.call_closure(st, fr, args[1], [])
+        else:
+            raise Unsupported("hash_map::Entry::or_default (value type default not modelled)")
+        # the closure may have forked; re-read the entries of the (possibly restored) state
+        ents = hashmap_entries(r)
+        ents.append(Agg("tuple", [key, val]))
+        k = len(ents) - 1
+    return Ref(r.cell, r.path + (("f", 0), ("i", k), ("f", 1)), None, False, True)
 
 
 @model(r"^(?:std::sync::)?Arc::<(.*)>::new$")
